@@ -580,6 +580,8 @@ def explore_options(job):
                     res['compared'] += 1
                     if F.get(rel) != fresh[i2].get(rel):
                         changed = sorted(k for k in set(v1) | set(v2) if v1.get(k) != v2.get(k))
+                        if fclass(rel) == 'intro-dependencies' and 'pkg_config_path' in changed:
+                            changed = ['pkg_config_path']      # (the listing of the dependency cache depends on the search paths it has seen, whatever else changed)
                         res['viol'].append(('C06:differs:%s:earlier-options:%s' % (fclass(rel), '+'.join(changed)),
                                             'option-histories: %s differs between a directory configured with %r and then brought to %r by %s, and a fresh configuration with the latter%s'
                                             % (rel, v1, v2, how, first_diff(fresh[i2].get(rel), F.get(rel))), dict(rep, file=rel)))
